@@ -2,13 +2,14 @@
 # tools_recheck_seeded.sh <seeded_dir> <PROP> [logname] — re-run only the property's quick check against the
 # patched scratch worktree (after the machinery was strengthened); writes <seeded_dir>/<logname>.
 set -u
+HERE="$(cd "$(dirname "${BASH_SOURCE[0]}")" && pwd)"
 D=$(realpath "$1"); P=$2; LOG=${3:-eval_recheck16.log}
 WT=$(mktemp -d /tmp/rc-XXXXXX); rmdir "$WT"
 git -C /repo worktree add --detach "$WT" HEAD >/dev/null 2>&1 || { echo "worktree failed"; exit 2; }
 cleanup() { git -C /repo worktree remove --force "$WT" >/dev/null 2>&1; rm -rf "$WT"; }
 trap cleanup EXIT
 (cd "$WT" && git apply "$D/patch.diff") || { echo "patch does not apply"; exit 2; }
-cd /verif
+cd "$HERE"
 VERIF_REPO=$WT VERIF_NO_EVIDENCE=1 VERIF_REPLAY_DIR=$D/replays VERIF_WORK=$WT timeout 2400 bin/check $P quick > "$D/$LOG.tmp" 2>&1; rc=$?
 { echo "check_rc=$rc"; grep -vE "^WARNING" "$D/$LOG.tmp"; } > "$D/$LOG"; rm -f "$D/$LOG.tmp"
 echo "$(basename $D) check_rc=$rc $(grep -E '^VIOLATION' "$D/$LOG" | head -1 | cut -c1-260)"
